@@ -13,12 +13,19 @@ import loopx
 from props import c12
 
 
+import vlib
+
+
 def run(c):
     loopx.run_suite(c, 'C05', with_window=False)
     # start-up with another instance's snapshot already in the bucket (hasSnapshots, waitingForInstances, start tracker)
     loopx.run_extra(c, 'C05', 'ready')
     # cleaners: what a cleaning run may delete (Cleaner.tla), replayed on the real cleaner.Worker
     c12.run_cfg(c, 'Cleaner.cfg', 1, 2, 20000 if c.tier == 'thorough' else 2000, 16)
+    # settings under which the property cannot hold are refused by Config.Check (what the daemon runs first)
+    _g = vlib.run_harness(['config-gate'], timeout=120)
+    _g['mismatches'] = [m for m in _g['mismatches'] if (m.get('sig') or {}).get('prop') in ('C05', 'conformance')]
+    vlib.absorb(c, _g)
     c.assumptions += ['application writes are monotone per key per instance', 'versions that arrived from another instance stay available in that instance\'s snapshot',
                       'cleaner interaction is decided by the Cleaner model (C12): it never deletes an instance\'s newest snapshot unless stale and committed']
     c.extra['rule'] = 'simulated LSLoop behaviours with crashes/restarts and Store faults replayed on the real loop'
